@@ -13,6 +13,7 @@ CONSTANTS
   MineWeight = 120
   FeeFirst = TRUE
   EvictMode = "nodeps"
+  ReconcileMature = TRUE
   ShortReorg = FALSE
   MaxBlocks = 2
   MaxSteps = 4
